@@ -735,67 +735,118 @@ def r01_46_unstable(ctx, m):
 
 def r01_8(ctx):
     """view.run's graph tables for --format stable: every node maps to (contig = SN value, start = int(SO),
-    end = int(SO) + int(LN)); the reference contigs are those of rank 0; their length is the sum of their segments' LN."""
-    from ..core import resolve_expr
+    end = int(SO) + int(LN)); the reference contigs are those of rank 0; their length is the sum of their segments' LN.
+    Decided on the normal form of view.run (helpers inlined), for comprehension and loop spellings alike."""
+    import re as _re
+
+    from ..core import normal, resolve_expr
 
     repo = ctx.repo
     view = repo.module("gaftools.cli.view", "R01.8")
-    run = None
-    ctor = None
-    for f in view.funcs.values():
-        for c in walk_own(f.node):
-            if isinstance(c, ast.Call) and norm(c.func) == "StableNode":
-                run, ctor = f, c
-    if run is None:
+    cands = []
+    for f0 in view.funcs.values():
+        f = normal(repo, f0)
+        ctors = [c for c in walk_own(f.node) if isinstance(c, ast.Call) and norm(c.func) == "StableNode"]
+        if ctors and not repo.callers_of(f0):
+            cands.append((f, ctors))
+    if not cands:
+        for f0 in view.funcs.values():
+            f = normal(repo, f0)
+            ctors = [c for c in walk_own(f.node) if isinstance(c, ast.Call) and norm(c.func) == "StableNode"]
+            if ctors:
+                cands.append((f, ctors))
+    if not cands:
         raise AnalysisError("R01.8", view.relpath, "view does not build the node -> stable interval map")
+    run, ctors = max(cands, key=lambda x: len(list(ast.walk(x[0].node))))
+    ctor = ctors[0]
     ctx.analysed_func(run)
-    # the enclosing comprehension / loop: key and iteration
-    comp = None
-    for n in walk_own(run.node):
-        if isinstance(n, ast.DictComp) and any(x is ctor for x in ast.walk(n.value)):
-            comp = n
     args = {k.arg: k.value for k in ctor.keywords}
     cparams = ["contig_id", "start", "end"]
     for i, a in enumerate(ctor.args):
         args[cparams[i]] = a
-    if comp is None or set(args) != set(cparams):
-        raise AnalysisError("R01.8", run.where(ctor), "node map is not a dict comprehension over the graph's nodes with StableNode(contig_id, start, end)")
-    kv = norm(comp.key)
-    gen = comp.generators[0]
-    node = None
-    import re as _re
-
-    mm = _re.fullmatch(r"(\w+)\[" + _re.escape(kv) + r"\]\.tags\['SN'\]\[1\]", norm(args["contig_id"]))
+    if set(args) != set(cparams):
+        raise AnalysisError("R01.8", run.where(ctor), "StableNode is not built from (contig_id, start, end)")
+    # the key variable and the iteration: {k: StableNode(..) for k in G.nodes}  or  for k in G.nodes: M[k] = StableNode(..)
+    kv = it = None
+    filtered = False
+    for n in walk_own(run.node):
+        if isinstance(n, ast.DictComp) and any(x is ctor for x in ast.walk(n.value)) and len(n.generators) == 1:
+            kv, it, filtered = norm(n.key), n.generators[0].iter, bool(n.generators[0].ifs) or norm(n.generators[0].target) != norm(n.key)
+        if isinstance(n, ast.For) and any(isinstance(st, ast.Assign) and isinstance(st.targets[0], ast.Subscript) and any(x is ctor for x in ast.walk(st.value)) for st in n.body):
+            st = next(st for st in n.body if isinstance(st, ast.Assign) and isinstance(st.targets[0], ast.Subscript) and any(x is ctor for x in ast.walk(st.value)))
+            kv, it = norm(st.targets[0].slice), n.iter
+            filtered = norm(n.target) != kv or any(isinstance(x, (ast.If, ast.Continue, ast.Break)) for x in ast.walk(n))
+    if kv is None:
+        raise AnalysisError("R01.8", run.where(ctor), "node map is neither a dict comprehension nor a loop over the graph's nodes")
+    ld = None
+    contig_txt = resolve_expr(run.node, args["contig_id"])
+    mm = _re.fullmatch(r"(\w+)(?:\.nodes)?\[" + _re.escape(kv) + r"\]\.tags\['SN'\]\[1\]", contig_txt)
     if not mm:
-        raise AnalysisError("R01.8", run.where(ctor), f"contig of a node is `{norm(args['contig_id'])}`: not the recognised <graph>[id].tags['SN'][1] form")
-    ok = not gen.ifs and norm(gen.target) == kv and norm(gen.iter) in (f"{mm.group(1)}.nodes", f"{mm.group(1)}.nodes.keys()", f"list({mm.group(1)}.nodes)")
-    if mm:
-        g_ = mm.group(1)
-        so = f"int({g_}[{kv}].tags['SO'][1])"
-        ln = f"int({g_}[{kv}].tags['LN'][1])"
-        ok = ok and norm(args["start"]) == so and norm(args["end"]) in (f"{so} + {ln}", f"{ln} + {so}")
-    ctx.check(ok, "R01.8", run.where(ctor), "every node of the graph maps to its stable interval: contig = SN value, start = int(SO), end = int(SO) + int(LN), keyed by the node id, no node filtered", key_of(run, f"node-map:{norm(ctor)[:150]}"), contig=norm(args["contig_id"]), start=norm(args["start"]), end=norm(args["end"]))
+        raise AnalysisError("R01.8", run.where(ctor), f"contig of a node is `{contig_txt}`: not the recognised <graph>[id].tags['SN'][1] form")
+    g_ = mm.group(1)
+    node_txts = (f"{g_}[{kv}]", f"{g_}.nodes[{kv}]")
+    sos = {f"int({n_}.tags['SO'][1])" for n_ in node_txts}
+    lns = {f"int({n_}.tags['LN'][1])" for n_ in node_txts}
+    start_txt, end_txt = resolve_expr(run.node, args["start"]), resolve_expr(run.node, args["end"])
+    ok = not filtered and norm(it) in (f"{g_}.nodes", f"{g_}.nodes.keys()", f"list({g_}.nodes)", f"list({g_}.nodes.keys())", g_)
+    ok = ok and start_txt in sos and any(end_txt in (f"{a} + {b}", f"{b} + {a}") for a in sos for b in lns)
+    ctx.check(ok, "R01.8", run.where(ctor), "every node of the graph maps to its stable interval: contig = SN value, start = int(SO), end = int(SO) + int(LN), keyed by the node id, no node filtered", key_of(run, f"node-map:{contig_txt}:{start_txt}:{end_txt}:{norm(it)}:{filtered}"), contig=contig_txt, start=start_txt, end=end_txt)
     # reference contigs: rank 0
-    refs = [st for st in walk_own(run.node) if isinstance(st, ast.Assign) and isinstance(st.value, ast.ListComp) and ".contigs" in norm(st.value)]
-    okr = False
-    for st in refs:
-        gen = st.value.generators[0]
-        cv = norm(gen.target)
-        okr = len(gen.ifs) == 1 and norm(gen.ifs[0]).replace(" ", "") in (f"gfa_file.contigs[{cv}]==0", f"0==gfa_file.contigs[{cv}]") and norm(st.value.elt) == cv and norm(gen.iter) in ("gfa_file.contigs", "gfa_file.contigs.keys()")
-        if okr:
-            refvar = norm(st.targets[0])
-            break
-    ctx.check(okr, "R01.8", run.where(), "the reference contigs are exactly the contigs whose rank (SR) is 0", key_of(run, f"ref-contigs:{[norm(s.value) for s in refs]}"))
+    refvar = None
+    seen_refs = []
+    for st in walk_own(run.node):
+        if isinstance(st, ast.Assign) and isinstance(st.value, ast.ListComp) and ".contigs" in norm(st.value) and len(st.value.generators) == 1:
+            gen = st.value.generators[0]
+            seen_refs.append(norm(st.value))
+            if len(gen.ifs) != 1:
+                continue
+            cond = norm(gen.ifs[0]).replace(" ", "")
+            if isinstance(gen.target, ast.Tuple) and len(gen.target.elts) == 2 and norm(gen.iter) == f"{g_}.contigs.items()":
+                cv, rv = [norm(e) for e in gen.target.elts]
+                good = cond in (f"{rv}==0", f"0=={rv}") and norm(st.value.elt) == cv
+            else:
+                cv = norm(gen.target)
+                good = cond in (f"{g_}.contigs[{cv}]==0", f"0=={g_}.contigs[{cv}]") and norm(st.value.elt) == cv and norm(gen.iter) in (f"{g_}.contigs", f"{g_}.contigs.keys()", f"list({g_}.contigs)")
+            if good:
+                refvar = norm(st.targets[0])
+    if not seen_refs:
+        raise AnalysisError("R01.8", run.where(), "cannot find the selection of the reference contigs")
+    ctx.check(refvar is not None, "R01.8", run.where(), "the reference contigs are exactly the contigs whose rank (SR) is 0", key_of(run, f"ref-contigs:{seen_refs}"))
     # contig lengths: get_contig_length(contig, throw_warning=False) for each reference contig; = sum of LN over the path
-    lens = [st for st in walk_own(run.node) if isinstance(st, ast.Assign) and isinstance(st.targets[0], ast.Subscript) and isinstance(st.value, ast.Call) and isinstance(st.value.func, ast.Attribute) and st.value.func.attr == "get_contig_length"]
     okl = False
-    if lens and okr:
-        st = lens[0]
-        loop = next((l for l in walk_own(run.node) if isinstance(l, ast.For) and any(x is st for x in l.body)), None)
-        okl = loop is not None and norm(loop.iter) == refvar and norm(st.targets[0].slice) == norm(loop.target) and norm(st.value.args[0]) == norm(loop.target) and any(k.arg == "throw_warning" and const_value(k.value) is False for k in st.value.keywords)
+    seen_len = []
+    for n in walk_own(run.node):
+        c = cv = src_it = None
+        if isinstance(n, ast.For):
+            for st in n.body:
+                if isinstance(st, ast.Assign) and isinstance(st.targets[0], ast.Subscript) and isinstance(st.value, ast.Call) and isinstance(st.value.func, ast.Attribute) and st.value.func.attr == "get_contig_length":
+                    c, cv, src_it, keyv = st.value, norm(n.target), norm(n.iter), norm(st.targets[0].slice)
+        if isinstance(n, ast.DictComp) and isinstance(n.value, ast.Call) and isinstance(n.value.func, ast.Attribute) and n.value.func.attr == "get_contig_length" and len(n.generators) == 1 and not n.generators[0].ifs:
+            c, cv, src_it, keyv = n.value, norm(n.generators[0].target), norm(n.generators[0].iter), norm(n.key)
+        if c is not None:
+            seen_len.append(norm(c))
+            okl = okl or (refvar is not None and src_it == refvar and keyv == cv and c.args and norm(c.args[0]) == cv and any(k.arg == "throw_warning" and const_value(k.value) is False for k in c.keywords))
+    if not seen_len:
+        raise AnalysisError("R01.8", run.where(), "cannot find where the reference contig lengths are computed")
     gcl = repo.func("gaftools.gfa", "GFA.get_contig_length", "R01.8")
     ctx.analysed_func(gcl)
-    rets = [r for r in walk_own(gcl.node) if isinstance(r, ast.Return) and r.value is not None]
-    src = resolve_expr(gcl.node, rets[-1].value) if rets else ""
-    oks = src.replace(" ", "") in ("sum([int(self.nodes[x].tags['LN'][1])forxinself.get_path(chrom,throw_warning)])", "sum((int(self.nodes[x].tags['LN'][1])forxinself.get_path(chrom,throw_warning)))")
+    gcl_n = normal(repo, gcl, keep=lambda callee: callee.name == "get_path")
+    # sum of int(LN) over get_path(chrom, throw_warning): a sum() over a comprehension, or an accumulator loop
+    oks = False
+    src = ""
+    for r in walk_own(gcl_n.node):
+        if isinstance(r, ast.Return) and r.value is not None:
+            t = resolve_expr(gcl_n.node, r.value).replace(" ", "")
+            src = src or t
+            if _re.fullmatch(r"sum\(\[?\(?int\(self(?:\.nodes)?\[(\w+)\]\.tags\['LN'\]\[1\]\)for\1inself\.get_path\((\w+),throw_warning(?:=throw_warning)?\)\)?\]?\)", t):
+                oks = True
+    if not oks:
+        for lp in walk_own(gcl_n.node):
+            if isinstance(lp, ast.For) and "get_path(" in resolve_expr(gcl_n.node, lp.iter) and len(lp.body) == 1 and isinstance(lp.body[0], ast.AugAssign) and isinstance(lp.body[0].op, ast.Add):
+                t = norm(lp.body[0].value).replace(" ", "")
+                x = norm(lp.target)
+                acc = norm(lp.body[0].target)
+                if t in (f"int(self.nodes[{x}].tags['LN'][1])", f"int(self[{x}].tags['LN'][1])") and any(isinstance(r, ast.Return) and r.value is not None and norm(r.value) == acc for r in walk_own(gcl_n.node)):
+                    oks = True
+                    src = "accumulator loop: " + t
     ctx.check(okl and oks, "R01.8", run.where(), "the length of a reference contig (path length of a collapsed record) is the sum of the LN tags of all its segments", key_of(run, f"contig-len:{okl}:{src[:80]}"), expr=src)
